@@ -33,11 +33,21 @@ func VerifC16_Trace() {
 	ref := parent.Clone()
 	rec := &vRecorder{}
 	st := NewStore(parent, rec, types.TraceContext{"blockHeight": 64})
-	keys := [][]byte{[]byte("ka"), []byte("kb"), []byte("kc")}
+	parent.Set([]byte{0xFB, 0xFF}, []byte{0xFF, 0xFE}) // binary key/value (base64 with '+' and '/')
+	ref = parent.Clone()
+	keys := [][]byte{[]byte("ka"), []byte("kb"), []byte("kc"), {0xFB, 0xFF}}
 	var want []vExpected
-	for i := 0; i < 3; i++ {
-		k := keys[zz.Choice("key", 3)]
-		switch zz.Choice("op", 5) {
+	steps := 2
+	if zz.Thorough() {
+		steps = 3
+	}
+	for i := 0; i < steps; i++ {
+		op := zz.Choice("op", 6)
+		var k []byte
+		if op <= 3 {
+			k = keys[zz.Choice("key", 4)]
+		}
+		switch op {
 		case 0:
 			got := st.Get(k)
 			exp := ref.Get(k)
@@ -62,6 +72,19 @@ func VerifC16_Trace() {
 				it.Next()
 			}
 			zz.Assert("C16.trace.iterator-ends", !it.Valid())
+			it.Close()
+		case 5: // a bounded descending range through the traced store
+			bounds := [][]byte{nil, []byte("ka"), []byte("kc")}
+			start, end := bounds[zz.Choice("rstart", 3)], bounds[zz.Choice("rend", 3)]
+			it := st.ReverseIterator(start, end)
+			exp := ref.Sorted(start, end)
+			for j := len(exp) - 1; j >= 0; j-- {
+				e := exp[j]
+				zz.Assert("C16.trace.reverse-iterator-transparent", it.Valid() && bytes.Equal(it.Key(), e.K) && bytes.Equal(it.Value(), e.V))
+				want = append(want, vExpected{iterKeyOp, e.K, nil}, vExpected{iterValueOp, nil, e.V})
+				it.Next()
+			}
+			zz.Assert("C16.trace.reverse-iterator-ends", !it.Valid())
 			it.Close()
 		}
 	}
